@@ -108,6 +108,8 @@ TABLE: list[tuple[str, str, bool, str, list[F]]] = [
     ("Serial", "Expr", False, "", [F("name", "str", "prop", "str"), F("serial", "int", "prop", "int", "field(init=False, compare=False, default_factory=_next_serial)", compare=False, init=False)]),
     # field names that sort before "__type"
     ("Upper", "Expr", False, "", [F("Name", "str", "prop", "str"), F("ID", "int", "prop", "int", "0"), F("_x", "str", "prop", "str", '""')]),
+    # a class that a run may define twice (class factory called twice / re-run cell): see redefine_dyn()
+    ("Dyn", "Expr", False, "", [F("value", "int", "prop", "int", "0"), F("unit", "str", "prop", "str", '"kg"')]),
     # multiple inheritance (allowed for non-slotted subclasses)
     ("Located", "Expr", False, "", [F("line", "int", "prop", "int", "0")]),
     ("Typed", "Expr", False, "", [F("ty", "str", "prop", "str", '""')]),
@@ -248,8 +250,30 @@ CHILD_FIELDS: dict[str, list[F]] = _Tab({n: [f for f in fs if f.kind != "prop"] 
 PROP_FIELDS: dict[str, list[F]] = _Tab({n: [f for f in fs if f.kind == "prop"] for n, fs in FIELDS.items()})
 
 NODE_CLASSES = [n for n in _OWN if n != "Expr"]
-LEAF_CLASSES = ["LeafA", "LeafB", "LeafA2", "Meta", "Vals", "FS", "Carrier", "Serial", "Upper", "Lit", "Located", "Typed"]
+LEAF_CLASSES = ["LeafA", "LeafB", "LeafA2", "Meta", "Vals", "FS", "Carrier", "Serial", "Upper", "Lit", "Located", "Typed", "Dyn"]
 INNER_CLASSES = ["Pair", "Seq", "Fixed", "Mixed", "Falsy"]
+
+def redefine_dyn() -> None:
+    """Define `Dyn` again in the same module: first an OLDER version of the class (one field less), which is
+    instantiated once and dropped, then the current version.  Same module, same qualified name, three different class
+    objects over the life of the process -- legal for pyoak (same module)."""
+    old_src = (
+        "@dataclass(frozen=True, kw_only=True)\n"
+        "class Dyn(Expr):\n"
+        "    value: int = 0\n"
+    )
+    exec(compile(old_src, "<universe.v2 generated>", "exec"), M.__dict__)
+    n = M.Dyn(value=1)
+    list(n.get_properties())
+    list(n.get_child_nodes())
+    n.detach()
+    del n
+    cur = next(t for t in TABLE if t[0] == "Dyn")
+    flds = list(reversed(cur[4])) if PERMUTED else cur[4]
+    src = "@dataclass(frozen=True, kw_only=True)\nclass Dyn(Expr):\n" + "".join(f"    {f.name}: {f.ann} = {f.default}\n" for f in flds)
+    exec(compile(src, "<universe.v2 generated>", "exec"), M.__dict__)
+    CLS["Dyn"] = M.Dyn
+
 
 # ---- origins ----------------------------------------------------------------------------------------
 from pyoak.origin import (  # noqa: E402
